@@ -309,6 +309,19 @@ func checkFacts(repo string) (string, error) {
 		}
 	}
 
+	// convertConst: the float32 case takes the nearest float32 of the exact value
+	f["f32Direct"] = "false"
+	if fd := common.FindFunc(fT, "typecheck", "convertConst"); fd != nil {
+		for _, cc := range casesOf(fd, "reflect.Float32") {
+			if len(cc.Body) == 2 && render(cc.Body[0]) == "f, _ := constant.Float32Val(constant.ToFloat(c))" &&
+				render(cc.Body[1]) == "v = reflect.ValueOf(f)" {
+				f["f32Direct"] = "true"
+			}
+		}
+	} else {
+		f["f32Direct"] = "false /- " + unrec("typecheck.convertConst") + " -/"
+	}
+
 	// constToken
 	var toks []string
 	if cl, ok := common.FindVar(fT, "constToken").(*ast.CompositeLit); ok {
@@ -331,7 +344,7 @@ func checkFacts(repo string) (string, error) {
 	fmt.Fprintf(&b, "/-- interp/typecheck.go: constToken -/\ndef constToken : List (Act × Tok) :=\n  [%s]\n", strings.Join(toks, ", "))
 	order := []string{"constExprBin", "constExprUn", "overflowBin", "overflowUn", "intBitsMax", "shiftCountMax", "shiftClamp", "quoIntExact",
 		"quoEarlyReturn", "zeroForm", "untypedStays", "floatShiftCount", "convTypedChecked", "reprConstValue", "boolConvChecked",
-		"foldLogical", "cmpNotPushed", "lenConstString", "runeLitKeepsType"}
+		"foldLogical", "cmpNotPushed", "lenConstString", "runeLitKeepsType", "f32Direct"}
 	var fields []string
 	for _, k := range order {
 		fields = append(fields, k+" := "+f[k])
